@@ -8,7 +8,10 @@ from harness.common import pmap, build, via4, canonical_in
 from harness.drive_quantise import random_score
 
 SIGPLANS = [[], [P.ts(0, 4, 4)], [P.ts(0, 3, 4)], [P.ts(0, 4, 4), P.ts(6, 3, 4)], [P.ks(0, "D")], [P.ts(0, 4, 4), P.ks(4, "G")],
-            [P.ts(8, 6, 8)], [P.ks(0, "D"), P.ks(6, "A")]]
+            [P.ts(8, 6, 8)], [P.ks(0, "D"), P.ks(6, "A")],
+            # a return to an earlier signature (X - Y - X), within one member and spread over several
+            [P.ts(0, 4, 4), P.ts(6, 3, 4), P.ts(12, 4, 4)], [P.ks(0, "C"), P.ks(5, "G"), P.ks(9, "C")], [P.ts(12, 4, 4)],
+            [P.ts(0, 4, 4), P.ks(0, "D"), P.ts(4, 3, 4), P.ks(4, "A"), P.ts(10, 4, 4), P.ks(10, "D")]]
 
 
 def execute(case):
